@@ -28,7 +28,7 @@ const vfT = 300 * time.Millisecond
 func TestVfProbe(t *testing.T) {
 	out := vfOpenOut(t, "VF_OUT")
 	defer out.close()
-	srvs := map[string]*vfHTTPSrv{"http": vfNewHTTPSrv(false, 4*vfT), "https": vfNewHTTPSrv(true, 4*vfT)}
+	srvs := map[string]*vfHTTPSrv{"http": vfNewHTTPSrv(false, 20*vfT), "https": vfNewHTTPSrv(true, 20*vfT)}
 	l2, _ := net.Listen("tcp4", "127.0.0.1:0")
 	closedPort := l2.Addr().(*net.TCPAddr).Port
 	l2.Close()
